@@ -364,6 +364,13 @@ package commitlog
 //@ globalinv ErrSegmentExists serves C16, C01: ErrSegmentExists != nil
 //@ globalinv ErrCommitLogReadonly serves C16, C01: ErrCommitLogReadonly != nil
 
+// the stored form counts the headers in a 16-bit field (read back as uint16): a message with more headers than that
+// cannot be read back as stored and must be refused by the encoder, not truncated (C01: "... exactly the ... headers")
+//@ globalinv errTooManyHeaders serves C01: errTooManyHeaders != nil
+//@ func (*Message).Encode serves C01
+//@   assumes m != nil
+//@   ensures [the-header-count-fits-its-field] result == nil ==> old(len(m.Headers)) <= 65535
+
 // newMessageSetFromProto: message i of the batch gets offset base+i; under concurrency control a message
 // with an expected offset is refused unless that is the offset it would get; nothing outside fresh memory changes.
 //@ ghost var encodeFailed bool
